@@ -176,11 +176,22 @@ theorem step_stream_grows (cfg : WCfg) (hf : FOK cfg.parser.filter) (w : World) 
     unfold stepWorld
     obtain ⟨ext, hext, _⟩ := stream_execAt cfg w src.other t isTxn cmds .book
     exact ⟨ext, hext⟩
+  | restart src p =>
+    unfold stepWorld
+    simp only
+    split
+    · rw [site_setLink]; exact ⟨[], by simp⟩
+    · exact ⟨[], by simp⟩
 
-theorem step_link_same (cfg : WCfg) (w : World) (e : Ev) (hne : ¬ e.isLink) (t : SiteId) :
+def Ev.isRestart : Ev → Prop
+  | .restart _ _ => True
+  | _ => False
+
+theorem step_link_same (cfg : WCfg) (w : World) (e : Ev) (hne : ¬ e.isLink) (hnr : ¬ e.isRestart) (t : SiteId) :
     (stepWorld cfg w e).link t = w.link t := by
   cases e with
   | link _ _ => exact absurd trivial hne
+  | restart _ _ => exact absurd trivial hnr
   | client s isTxn cmds =>
     unfold stepWorld
     simp only
@@ -257,8 +268,27 @@ theorem content_step (cfg : WCfg) (hf : FOK cfg.parser.filter) (w : World) (hinv
     | snapshot _ _ _ => exact absurd hl (by simp [Ev.isLink])
     | book _ _ => exact absurd hl (by simp [Ev.isLink])
     | toolRaw _ _ _ => exact absurd hl (by simp [Ev.isLink])
-  · rw [step_link_same cfg w e hl] at hp
-    exact lift (hc s p hp)
+    | restart _ _ => exact absurd hl (by simp [Ev.isLink])
+  · by_cases hr : e.isRestart
+    · cases e with
+      | restart src q =>
+        apply lift
+        unfold stepWorld at hp
+        simp only at hp
+        split at hp
+        · rcases eq_or_other' src s with rfl | rfl
+          · rw [link_setLink_same] at hp; exact hc _ p hp
+          · rw [link_setLink_other] at hp; exact hc _ p hp
+        · exact hc s p hp
+      | client _ _ _ => exact absurd hr (by simp [Ev.isRestart])
+      | tick _ _ => exact absurd hr (by simp [Ev.isRestart])
+      | expire _ _ => exact absurd hr (by simp [Ev.isRestart])
+      | link _ _ => exact absurd hr (by simp [Ev.isRestart])
+      | snapshot _ _ _ => exact absurd hr (by simp [Ev.isRestart])
+      | book _ _ => exact absurd hr (by simp [Ev.isRestart])
+      | toolRaw _ _ _ => exact absurd hr (by simp [Ev.isRestart])
+    · rw [step_link_same cfg w e hl hr] at hp
+      exact lift (hc s p hp)
 
 theorem content_run (cfg : WCfg) (hf : FOK cfg.parser.filter) (evs : List Ev) (w : World) (hinv : WInv cfg w)
     (hc : Content w) (hgood : GoodRun cfg w evs) : Content (runWorld cfg w evs) := by
@@ -385,6 +415,7 @@ theorem drain_count (cfg : WCfg) (hf : FOK cfg.parser.filter) (more : List Ev) (
     | snapshot _ _ _ => exact absurd he (by simp [Ev.isLink])
     | book _ _ => exact absurd he (by simp [Ev.isLink])
     | toolRaw _ _ _ => exact absurd he (by simp [Ev.isLink])
+    | restart _ _ => exact absurd he (by simp [Ev.isLink])
 
 /-! ### the drain reaches a state with nothing pending -/
 
@@ -631,5 +662,6 @@ theorem quiesce_settled (cfg : WCfg) (hf : FOK cfg.parser.filter) (more : List E
     | snapshot _ _ _ => exact absurd he (by simp [Ev.isLink])
     | book _ _ => exact absurd he (by simp [Ev.isLink])
     | toolRaw _ _ _ => exact absurd he (by simp [Ev.isLink])
+    | restart _ _ => exact absurd he (by simp [Ev.isLink])
 
 end GunYu.Bisync
